@@ -339,7 +339,7 @@ def tree_case(col, rng, n=None, depth=None):
         trees.append((node, spec, desc, pure, ':base-after-deriving'))
         del trees[0]
         col.count('operator_derivations_from_a_shared_base', 4)
-    if pure and rng.random() < 0.3:
+    if pure and 'DEFAULT-LOGGED' not in repr(node) and rng.random() < 0.3:
         # copies of a tree made of M expressions only (copy, deepcopy, a pickle round trip - specs kept in configuration get copied):
         # a copy decides like the original
         import copy
